@@ -223,6 +223,13 @@ def run_harness(prop, tier, seed, extra=None, timeout=None):
            "-driver", os.path.join(LEAN, ".lake", "build", "bin", "drv" + prop[1:]),
            "-vegeta", os.path.join(BUILD, "vegeta-verif"), "-work", work, "-out", out] + (extra or [])
     env = dict(os.environ, GOMAXPROCS=os.environ.get("GOMAXPROCS", "16"))
+    # the local time zone of the harness and of the vegeta processes it starts varies with the seed (nothing the
+    # properties say depends on it, so nothing may change): UTC, or a zone west / east of it with an odd offset
+    if "TZ" not in os.environ:
+        zones = ["America/New_York", "Asia/Kolkata", "UTC", "Australia/Lord_Howe", "America/St_Johns"]
+        z = zones[int(seed) % len(zones)]
+        if z == "UTC" or os.path.exists("/usr/share/zoneinfo/" + z):
+            env["TZ"] = z
     try:
         p = subprocess.run(cmd, stdout=subprocess.PIPE, stderr=subprocess.STDOUT, text=True, timeout=timeout, env=env)
         rc, text = p.returncode, p.stdout
